@@ -549,7 +549,11 @@ def check_C06(ctx: Ctx) -> None:
         if left not in ("0", "-"):
             ctx.fail(f"{left} rows left in the flow after the call returned", dict(request=req))
             continue
-        want = expected_events(stmts, "T" if (cls == "T") else "Q")
+        eff = cls
+        if req.split(" ")[2] in ("flat", "grouped"):
+            # guess_stream: a TripleStream unless the data are quads and the base logical type is not GRAPHS
+            eff = "Q" if ((o.lt % 10) != 3 and cls != "T") else "T"
+        want = expected_events(stmts, "T" if (eff == "T") else "Q")
         try:
             got = real_parse_flat(b)
         except Exception as e:  # noqa: BLE001
@@ -925,3 +929,328 @@ def _pair_ok(phys: int, lt: int) -> bool:
     if lt == 0:
         return True
     return (phys == 1) == (lt in (1, 3, 13))
+
+
+# ---------------------------------------------------------------------------------------------
+# C11
+# ---------------------------------------------------------------------------------------------
+
+class Stall(Exception):
+    pass
+
+
+class StallSource(io.RawIOBase):
+    """Raw non-seekable source that has delivered `limit` bytes and then stalls forever; a stall is
+    represented by raising, so the test observes exactly when the parser asks for undelivered bytes."""
+
+    def __init__(self, data: bytes, limit: int, chunk: int = 1 << 16):
+        self._data, self._pos, self._limit, self._chunk = data, 0, limit, chunk
+
+    def readable(self):
+        return True
+
+    def seekable(self):
+        return False
+
+    def readinto(self, b):
+        if self._pos >= self._limit:
+            raise Stall
+        n = min(len(b), self._limit - self._pos, self._chunk)
+        b[:n] = self._data[self._pos:self._pos + n]
+        self._pos += n
+        return n
+
+
+def _real_trace(cls: str, o: Opts, stmts, integration: str = "generic"):
+    """pull/yield trace of stream_frames(stream, generator) on the real code."""
+    from pyjelly.integrations.generic import serialize as gser
+
+    stream, _ = impl.make_stream(cls, o)
+    tr: list[str] = []
+    stmt_rows_out = [0]
+    pulls = [0]
+    lookahead = []
+
+    def source():
+        i = 0
+        for st in stmts:
+            i += 1
+            pulls[0] = i
+            tr.append(f"p{i}:{len(stream.flow)}")
+            yield st
+        pulls[0] = i + 1
+        tr.append(f"p{i + 1}:{len(stream.flow)}")
+
+    err = None
+    try:
+        for f in gser.stream_frames(stream, source()):
+            tr.append(f"y{len(f.rows)}")
+            stmt_rows_out[0] += sum(1 for r in f.rows if r.WhichOneof("row") in ("triple", "quad"))
+            if pulls[0] <= len(stmts):
+                lookahead.append(pulls[0] - stmt_rows_out[0])
+    except Exception as e:  # noqa: BLE001
+        err = e
+    line = " ".join(tr) + f" flow={len(stream.flow)} " + ("end" if err is None else "!" + type(err).__name__)
+    return line, tr, lookahead, stream
+
+
+def check_C11(ctx: Ctx) -> None:
+    from pyjelly.integrations.generic.parse import parse_jelly_flat
+
+    r = ctx.rng("trace")
+    reqs, resp = [], []
+    for i in range(ctx.n(300, 3000)):
+        cls = r.choice("TTQQG")
+        o = rand_opts(r, cls, delimited=True, lt=r.choice([0, {"T": 1, "Q": 2, "G": 2}[cls]]))
+        o.fs = r.choice([1, 2, 3, 5, 7, 250])
+        stmts = gen_fitting(r, cls, o, r.randint(0, 16))
+        line, tr, lookahead, stream = _real_trace(cls, o, stmts)
+        reqs.append(f"trace {cls} {o.token()} {stmts_text(stmts)}")
+        resp.append(line)
+        ctx.case((cls, o.token(), stmts_text(stmts)), len(stmts) >= 2, sample=dict(cls=cls, frame_size=o.fs, trace=line[:200]))
+        ctx.dist[f"cls:{cls}"] += 1
+        if not line.endswith(" end"):
+            continue
+        fs = stream.flow.frame_size
+        if fs != o.fs:
+            ctx.fail(f"the flow uses frame size {fs}, the caller asked for {o.fs}", dict(request=reqs[-1]))
+        # (i) from the second statement on fewer than frame_size rows are pending at every pull
+        for ev in tr:
+            if ev.startswith("p"):
+                idx, pend = map(int, ev[1:].split(":"))
+                if idx >= 2 and pend >= o.fs:
+                    ctx.fail(f"{pend} rows pending at pull {idx} with frame_size {o.fs}", dict(request=reqs[-1], trace=line),
+                             known="C11-graphs-lookahead" if cls == "G" else None)
+                    break
+        # (ii) at most one frame between two pulls (each frame is handed out at once)
+        body = tr[: max(j for j, ev in enumerate(tr) if ev.startswith("p"))] if any(ev.startswith("p") for ev in tr) else []
+        if cls != "G" and any(a.startswith("y") and b.startswith("y") for a, b in zip(body, body[1:])):
+            ctx.fail("two frames between consecutive pulls", dict(request=reqs[-1], trace=line))
+        # (iii) input consumed no further than the statement that completed the frame
+        if any(x > 0 for x in lookahead):
+            ctx.fail("input consumed beyond the statement that completed the frame",
+                     dict(request=reqs[-1], trace=line, lookahead=lookahead[:10]),
+                     known="C11-graphs-lookahead" if cls == "G" else None)
+    ctx.corr("SERSTEP", reqs, resp)
+    # parse side: the source stalls forever after frame j
+    for i in range(ctx.n(80, 800)):
+        g = gen.G(r)
+        s = None
+        while s is None or not s["delimited"]:
+            s = refenc.build_valid_stream(r, g, n_stmts=r.randint(1, 8))
+        b = s["bytes"]
+        ends, pos = [], 0
+        for f in s["frames"]:
+            pos += len(refenc.frames_to_bytes([f], True))
+            ends.append(pos)
+        ctx.case(("stall", b.hex()), True)
+        for j, lim in enumerate(ends):
+            if lim < 3:
+                continue
+            want = impl.run_par("flat", False, "seek", b[:lim]).rsplit(" ", 1)[0]
+            for kind in ("raw", "buffered"):
+                src = StallSource(b, lim, chunk=r.choice([3, 7, 1 << 16]))  # first read >= 3 bytes: shorter is C09's finding
+                if kind == "buffered":
+                    src = io.BufferedReader(src)
+                evs = []
+                try:
+                    for ev in parse_jelly_flat(src):
+                        evs.append(ev)
+                    ended = "end"
+                except Stall:
+                    ended = "stall"
+                except Exception as e:  # noqa: BLE001
+                    ended = "!" + type(e).__name__
+                got = events_text(evs)
+                ctx.dist[f"stall:{kind}"] += 1
+                if got != want:
+                    ctx.fail(f"{kind} source: statements of delivered frames not yielded before more bytes were required "
+                             f"(frame {j + 1}/{len(ends)}, ended {ended})",
+                             dict(bytes=b.hex(), limit=lim, got=got[:500], want=want[:500]),
+                             known="C11-double-buffer" if kind == "buffered" else None)
+
+
+# ---------------------------------------------------------------------------------------------
+# C12
+# ---------------------------------------------------------------------------------------------
+
+class _Err:
+    def __init__(self, name):
+        self.name = name
+
+
+def _c12_workload(seed: int, n: int = 12):
+    """Deterministic (seed-derived) list of (cls, Opts, statements)."""
+    import random
+
+    r = random.Random(f"c12|{seed}")
+    out = []
+    for _ in range(n):
+        cls = r.choice("TQG")
+        o = rand_opts(r, cls, ns=False)
+        out.append((cls, o, gen_fitting(r, cls, o, r.randint(1, 12))))
+    return out
+
+
+def _c12_bytes(work) -> list[bytes]:
+    return [impl.run_ser_frames(cls, o, stmts, is_sink=False)[1] or b"" for cls, o, stmts in work]
+
+
+def check_C12(ctx: Ctx) -> None:
+    import hashlib
+    import os
+    import subprocess
+    import sys
+    import threading
+
+    from pyjelly.integrations.generic import serialize as gser
+    from pyjelly.integrations.generic.parse import parse_jelly_flat
+
+    r = ctx.rng("iso")
+    # (0) model = pure function: real bytes equal the model's bytes under every condition below
+    work = _c12_workload(ctx.seed, ctx.n(16, 60))
+    alone = _c12_bytes(work)
+    reqs = [f"ser {cls} frames {o.token()} gen:{stmts_text(st)}" for cls, o, st in work]
+    resp_alone = [impl.run_ser_frames(cls, o, st, is_sink=False)[0] for cls, o, st in work]
+    ctx.corr("SER", reqs, resp_alone)
+    for (cls, o, st), b in zip(work, alone):
+        ctx.case((cls, o.token(), stmts_text(st)), True, sample=dict(cls=cls, opts=o.describe(), nbytes=len(b)))
+    # (1) prior history: abandoned streams, then again
+    for cls, o, st in work[:6]:
+        try:
+            s, _ = impl.make_stream(cls, o)
+            it = gser.stream_frames(s, (x for x in st))
+            next(it, None)  # abandon mid-way
+        except Exception:  # noqa: BLE001
+            pass
+    again = _c12_bytes(work)
+    ctx.dist["rerun_after_abandoned_streams"] += len(work)
+    if again != alone:
+        ctx.fail("bytes differ after other streams were created and abandoned", dict(index=[i for i, (a, b) in enumerate(zip(alone, again)) if a != b][:5]))
+    # (2) interleaved generator steps of several serializers and parsers
+    for trial in range(ctx.n(10, 100)):
+        idx = r.sample(range(len(work)), min(4, len(work)))
+        gens, outs = {}, {}
+        for i in idx:
+            cls, o, st = work[i]
+            try:
+                s, _ = impl.make_stream(cls, o)
+            except Exception:  # noqa: BLE001
+                continue
+            gens[("ser", i)] = gser.stream_frames(s, (x for x in st))
+            outs[("ser", i)] = []
+            if alone[i] and o.delim:
+                gens[("par", i)] = parse_jelly_flat(io.BytesIO(alone[i]))
+                outs[("par", i)] = []
+        live = list(gens)
+        while live:
+            k = r.choice(live)
+            try:
+                outs[k].append(next(gens[k]))
+            except StopIteration:
+                live.remove(k)
+            except Exception as e:  # noqa: BLE001
+                outs[k].append(_Err(type(e).__name__))
+                live.remove(k)
+        for (kind, i), v in outs.items():
+            cls, o, st = work[i]
+            ctx.dist["interleaved_" + kind] += 1
+            if kind == "ser":
+                frames = [f for f in v if not isinstance(f, _Err)]
+                if impl.frames_bytes(frames, o.delim) != alone[i] and not any(isinstance(f, _Err) for f in v):
+                    ctx.fail("interleaved serialization differs from serialization alone", dict(request=reqs[i]))
+            else:
+                want = impl.run_par("flat", False, "seek", alone[i])
+                got = events_text([e for e in v if not isinstance(e, _Err)]) + " " + ("end" if not any(isinstance(e, _Err) for e in v) else "!" + v[-1].name)
+                if got != want:
+                    ctx.fail("interleaved parse differs from parse alone", dict(bytes=alone[i].hex()))
+    # (3) threads
+    results: dict[int, list[bytes]] = {}
+
+    def worker(t):
+        results[t] = _c12_bytes(work)
+
+    ths = [threading.Thread(target=worker, args=(t,)) for t in range(ctx.n(4, 8))]
+    for t in ths:
+        t.start()
+    for t in ths:
+        t.join()
+    for t, v in results.items():
+        ctx.dist["thread_runs"] += 1
+        if v != alone:
+            ctx.fail("serialization in a thread differs from serialization alone", dict(thread=t))
+    # (4) fresh processes with different hash seeds
+    digest = hashlib.sha256(b"".join(len(b).to_bytes(4, "big") + b for b in alone)).hexdigest()
+    code = ("import sys; sys.path.insert(0, %r); import props, hashlib; "
+            "w = props._c12_workload(%d, %d); b = props._c12_bytes(w); "
+            "print(hashlib.sha256(b''.join(len(x).to_bytes(4, 'big') + x for x in b)).hexdigest())") % (
+                os.path.dirname(os.path.abspath(__file__)), ctx.seed, len(work))
+    for hs in (["0", "1", "2", "12345"] if ctx.quick() else ["0", "1", "2", "3", "7", "12345", "random", "4294967295"]):
+        env = dict(os.environ, PYTHONHASHSEED=hs)
+        p = subprocess.run([sys.executable, "-c", code], capture_output=True, text=True, env=env, timeout=600, check=False)
+        ctx.dist["hash_seed_runs"] += 1
+        out = p.stdout.strip().split("\n")[-1] if p.stdout.strip() else ""
+        if p.returncode != 0:
+            raise RuntimeError("C12 subprocess failed: " + p.stderr[-1000:])
+        if out != digest:
+            ctx.fail(f"bytes differ under PYTHONHASHSEED={hs}", dict(hash_seed=hs))
+    # (5) static frame condition: module/class level mutable objects of pyjelly are never mutated
+    hits = _c12_static_scan()
+    ctx.extra["static_scan"] = dict(shared_mutable_bindings=hits["bindings"], mutation_sites=hits["mutations"])
+    if hits["mutations"]:
+        ctx.fail("a module- or class-level mutable object of pyjelly is mutated at run time", dict(sites=hits["mutations"]))
+
+
+def _c12_static_scan() -> dict:
+    import ast
+    from pathlib import Path
+
+    import common
+
+    root = Path(common.REPO) / "pyjelly"
+    bindings, mutations = [], []
+    names: set[str] = set()
+    trees = {}
+    for p in sorted(root.rglob("*.py")):
+        if "jelly/rdf_pb2" in str(p):
+            continue
+        try:
+            trees[p] = ast.parse(p.read_text())
+        except SyntaxError:
+            continue
+    mutable = (ast.Dict, ast.List, ast.Set, ast.DictComp, ast.ListComp, ast.SetComp)
+
+    def is_mutable(v):
+        if isinstance(v, mutable):
+            return True
+        return isinstance(v, ast.Call) and isinstance(v.func, ast.Name) and v.func.id in ("dict", "list", "set", "OrderedDict", "deque", "defaultdict")
+
+    for p, tree in trees.items():
+        scopes = [tree] + [n for n in ast.walk(tree) if isinstance(n, ast.ClassDef)]
+        for sc in scopes:
+            for st in sc.body:
+                tgt, val = None, None
+                if isinstance(st, ast.Assign) and len(st.targets) == 1 and isinstance(st.targets[0], ast.Name):
+                    tgt, val = st.targets[0].id, st.value
+                elif isinstance(st, ast.AnnAssign) and isinstance(st.target, ast.Name) and st.value is not None:
+                    tgt, val = st.target.id, st.value
+                if tgt and val is not None and is_mutable(val):
+                    bindings.append(f"{p.relative_to(root.parent)}:{st.lineno}:{tgt}")
+                    names.add(tgt)
+    mut_methods = {"append", "extend", "update", "add", "pop", "popitem", "clear", "remove", "insert", "setdefault", "discard", "appendleft"}
+    for p, tree in trees.items():
+        for n in ast.walk(tree):
+            base = None
+            if isinstance(n, (ast.Assign, ast.AugAssign, ast.Delete)):
+                tgts = n.targets if isinstance(n, (ast.Assign, ast.Delete)) else [n.target]
+                for t in tgts:
+                    if isinstance(t, ast.Subscript):
+                        base = t.value
+            if isinstance(n, ast.Call) and isinstance(n.func, ast.Attribute) and n.func.attr in mut_methods:
+                base = n.func.value
+            if base is None:
+                continue
+            nm = base.id if isinstance(base, ast.Name) else (base.attr if isinstance(base, ast.Attribute) else None)
+            if nm in names and nm.isupper() or (nm in names and nm == "registry"):
+                mutations.append(f"{p.relative_to(root.parent)}:{n.lineno}:{nm}")
+    return dict(bindings=bindings, mutations=mutations)
